@@ -374,7 +374,7 @@ func dispatchDelegates(prog *Program, a *Anchors) map[*ssa.Function]bool {
 				continue
 			}
 			g := c.Call.StaticCallee()
-			if g == nil || g == fn || !prog.InModule(g) || !isBoolErr(g.Signature) {
+			if g == nil || g == fn || !prog.InModule(g) || !isVerdict(g.Signature) {
 				continue
 			}
 			for _, arg := range c.Call.Args {
@@ -601,4 +601,60 @@ func isStringSlice(t types.Type) bool {
 func isOptionList(t types.Type) bool {
 	s, ok := t.Underlying().(*types.Slice)
 	return ok && namedIs(s.Elem(), modPath, "Option")
+}
+
+// verdictFields: for a function whose one result is a small struct made of a truth value and an error (the pair
+// (bool, error) grouped), the names of the two fields.
+func verdictFields(sig *types.Signature) (okField, errField string) {
+	rs := sig.Results()
+	if rs.Len() != 1 {
+		return "", ""
+	}
+	st, ok := rs.At(0).Type().Underlying().(*types.Struct)
+	if !ok || st.NumFields() != 2 {
+		return "", ""
+	}
+	for i := 0; i < 2; i++ {
+		switch {
+		case isBool(st.Field(i).Type()):
+			okField = st.Field(i).Name()
+		case isErrorType(st.Field(i).Type()):
+			errField = st.Field(i).Name()
+		}
+	}
+	if okField == "" || errField == "" {
+		return "", ""
+	}
+	return
+}
+
+// isVerdict: the function answers with a truth value and an error — as a pair, or grouped in a struct.
+func isVerdict(sig *types.Signature) bool {
+	if isBoolErr(sig) {
+		return true
+	}
+	o, e := verdictFields(sig)
+	return o != "" && e != ""
+}
+
+// verdictModel: (b, e) in the shape the function's signature has.
+func verdictModel(sig *types.Signature, b, e *Sym) *Sym {
+	if isBoolErr(sig) {
+		return &Sym{K: sTuple, Kids: []*Sym{b, e}}
+	}
+	of, ef := verdictFields(sig)
+	return &Sym{K: sStruct, F: map[string]*Sym{of: b, ef: e}, T: sig.Results().At(0).Type()}
+}
+
+// verdictOf: the truth value and the error of a return, whatever the shape.
+func verdictOf(sig *types.Signature, rs []*Sym) (b, e *Sym, ok bool) {
+	if len(rs) == 2 && isBoolErr(sig) {
+		return rs[0], rs[1], true
+	}
+	of, ef := verdictFields(sig)
+	if len(rs) == 1 && of != "" {
+		g := rs[0]
+		return getPath(g, []string{of}), getPath(g, []string{ef}), true
+	}
+	return nil, nil, false
 }
